@@ -732,4 +732,55 @@ func TestC01(t *testing.T) {
 			}
 		}
 	})
+	// Instruction sequences: what an instruction does must not depend on the instruction that ran just before
+	// it (stale per-instruction state: early-finish rules, cached decodes, operand latches). Generated programs
+	// - conditional jumps/calls/returns of both outcomes, CB-prefixed and (HL) forms, stack traffic - run in
+	// lock-step with the reference; registers, flags and stored bytes are compared after every instruction.
+	lrg := newLockstepRig()
+	c.Rapid("sequences", 24000, 800000, func(rt *rapid.T) {
+		cas := c01GenSequence(rt)
+		st, sig, err := func() (st lsStats, sig string, err error) {
+			defer vf.Recover(&sig, &err)
+			return lrg.lockstep(&cas, lsPolicy{checkInstr: true})
+		}()
+		c.Case("sequence-end-"+st.End, vf.Hash(cas), st.Instrs >= 6, func() interface{} { return cas })
+		c.Class("sequence-instructions-executed", int64(st.Instrs))
+		if err != nil {
+			if !c.Fail("sequence", sig, err.Error(), cas) {
+				rt.Fatalf("%v", err)
+			}
+		}
+	})
+}
+
+// c01GenSequence: short programs dense in the pairs that matter - a conditional or prefixed instruction
+// directly followed by a CB-prefixed or memory-operand one.
+func c01GenSequence(rt *rapid.T) lsCase {
+	cas := lsCase{R: lsGenRegs(rt), MaxCycles: rapid.IntRange(60, 900).Draw(rt, "cycles")}
+	n := rapid.IntRange(4, 60).Draw(rt, "ninstr")
+	fl := lsFlavour{flow: 6, mem: 6, raw: 2}
+	var code []byte
+	for i := 0; i < n; i++ {
+		switch rapid.IntRange(0, 5).Draw(rt, "shape") {
+		case 0: // conditional relative jump over nothing (both outcomes leave the next instruction next)
+			code = append(code, 0x20|byte(rapid.IntRange(0, 3).Draw(rt, "cc"))<<3, 0x00)
+		case 1: // conditional absolute jump / call / return whose target is the next instruction or a subroutine
+			cc := byte(rapid.IntRange(0, 3).Draw(rt, "cc2")) << 3
+			t := 0xc000 + len(code) + 3
+			code = append(code, 0xc2|cc, byte(t), byte(t>>8))
+		case 2: // CB-prefixed, biased to the (HL) forms
+			op := rapid.Byte().Draw(rt, "cbop")
+			if rapid.Bool().Draw(rt, "hl") {
+				op = op&0xf8 | 6
+			}
+			code = append(code, 0xcb, op)
+		default:
+			code = append(code, lsGenInstr(rt, fl, n*2)...)
+		}
+	}
+	cas.Code = append(code, 0, 0, 0, 0, 0, 0, 0, 0)
+	var subs []cpuPoke
+	cas.Handlers, subs = lsGenHandlers(rt, lsFlavour{mem: 4})
+	cas.Pokes = append(subs, lsStackFill(rt, len(cas.Code))...)
+	return cas
 }
